@@ -195,6 +195,14 @@ pub fn judge(id: &str, j: &Judged, ctx: &Ctx) -> CaseOut {
                 all.push(Violation::new("C09/after-hook-missing-after-panic", format!("the panic `{p}` of a user callback tore down the run: {started} attempts started, the after hook ran {after_calls} times; attempts left without Finished: {open:?}")));
             }
         }
+        if id == "C03" {
+            // C03: "exactly one run-Finished as its last item, after which the stream ends"
+            all.push(Violation::new("C03/run-finished-missing-after-panic", format!("the event stream was torn down by the panic `{p}` of a user callback: it has no run-Finished, {} Started brackets stay open", log.events.iter().filter(|e| matches!(e.k, super::driver::EvKind::FeatureStarted | super::driver::EvKind::RuleStarted)).count())));
+        }
+        if id == "C08" && case.fail_fast() {
+            // C08: "every attempt already started still runs to its Finished event ... and the run ends with run-Finished"
+            all.push(Violation::new("C08/not-closed-cleanly-after-panic", format!("fail-fast run torn down by the panic `{p}` of a user callback; attempts left without Finished: {open:?}")));
+        }
     }
     // labels
     if case.lazy {
